@@ -382,7 +382,7 @@ func (m c05) Run(c *fw.Ctx) {
 		c.Exhaustive(fmt.Sprintf("Location.Reverse on Universe(L=%d,arity<=3)", L))
 	}
 	r := c.Rng
-	N := c.Pick(25000, 200000)
+	N := c.Pick(25000, 800000)
 	for it := 0; it < N; it++ {
 		c.NextOwn()
 		L := 2 + r.Intn(39)
@@ -431,7 +431,7 @@ func (m c05) Run(c *fw.Ctx) {
 		}
 		m.checkLoc(c, loc, L)
 	}
-	M := c.Pick(8000, 60000)
+	M := c.Pick(8000, 250000)
 	for it := 0; it < M; it++ {
 		c.NextOwn()
 		L := 1 + r.Intn(60)
